@@ -48,7 +48,11 @@ pub fn run_searches(property: &str, tier: &str, level: &str, searches: Vec<Searc
     let mut judged = 0usize;
     let mut tainted = 0usize;
     let mut max_depth_done = 0usize;
-    for s in &searches {
+    for (si, s) in searches.iter().enumerate() {
+        if std::env::var("VERIF_DUMP_PARAMS").is_ok() {
+            let _ = std::fs::write(format!("/tmp/params-{property}-{si}.json"), serde_json::to_string(&s.params).unwrap());
+            let _ = std::fs::write(format!("/tmp/alphabet-{property}-{si}.txt"), s.alphabet_shown.iter().enumerate().map(|(i, a)| format!("{i}\t{a}")).collect::<Vec<_>>().join("\n"));
+        }
         let shown = s.alphabet_shown.clone();
         let show = move |i: usize| shown[i].clone();
         let spec = BfsSpec {
